@@ -314,6 +314,21 @@ package PKGNAME
 //@ ensures[result] result == z
 //@ modifies z
 //@ end
+
+// SetString accepts exactly the numeric strings that math/big accepts with the base selected by the prefix (base 0),
+// sets z to the residue modulo q of the integer the string denotes, and otherwise returns (nil, error) and leaves z
+// as it was. The parser of math/big is the pair of uninterpreted functions bigparseok / bigparse of the characters;
+// the pool is an opaque call.
+//@ func Element.SetString
+//@ tags any
+//@ layer bigint big.Int
+//@ option nomerge
+//@ option opaque Get Put
+//@ ensures[accepts] isnil(result1) == bigparseok(number)
+//@ ensures[value] isnil(result1) ==> reg(val(z)) == bigmod(bigparse(number), q) && val(z) < q && same(result0, z)
+//@ ensures[rejected] !isnil(result1) ==> isnil(result0) && forall(i, 0, N, z[i] == old(z[i]))
+//@ modifies z
+//@ end
 `
 
 const glvText = `//go:build verif
@@ -356,10 +371,19 @@ func writeScalarMul(repoRoot, srcRoot string, check bool) int {
 			continue
 		}
 		stale += installText(filepath.Join(repoRoot, rel, "zz_verif_contracts_scalarmul.go"), txt, check)
-		fr, _ := os.ReadFile(filepath.Join(srcRoot, rel, "fr", "element.go"))
+	}
+	// the conversions through math/big: every field package
+	els, _ := filepath.Glob(filepath.Join(srcRoot, "ecc", "*", "f[pr]", "element.go"))
+	els2, _ := filepath.Glob(filepath.Join(srcRoot, "field", "*", "element.go"))
+	for _, f := range append(els, els2...) {
+		b, _ := os.ReadFile(f)
+		if !strings.Contains(string(b), "\nfunc (z *Element) SetString(") {
+			continue
+		}
 		pn := ""
-		fmt.Sscanf(after(string(fr), "\npackage "), "%s", &pn)
-		stale += installText(filepath.Join(repoRoot, rel, "fr", "zz_verif_contracts_bigconv.go"), strings.ReplaceAll(bigconvText, "PKGNAME", pn), check)
+		fmt.Sscanf(after(string(b), "\npackage "), "%s", &pn)
+		rel := strings.TrimPrefix(filepath.Dir(f), srcRoot+"/")
+		stale += installText(filepath.Join(repoRoot, rel, "zz_verif_contracts_bigconv.go"), strings.ReplaceAll(bigconvText, "PKGNAME", pn), check)
 	}
 	return stale
 }
